@@ -110,11 +110,16 @@ struct FileInfo {
   bool isDirectory() const;
 
   bool operator==(const FileInfo& rhs) const {
+    // The mode is deliberately not compared, but it is what tells an existing
+    // object from the all-zero record of a missing one when every other field
+    // is zero (an empty file with a zero timestamp seen through a file system
+    // which clears the device and inode): those two are never equal.
     return (device == rhs.device &&
             inode == rhs.inode &&
             size == rhs.size &&
             modTime == rhs.modTime &&
-            checksum == rhs.checksum);
+            checksum == rhs.checksum &&
+            isMissing() == rhs.isMissing());
   }
 
   bool operator!=(const FileInfo& rhs) const {
